@@ -905,7 +905,10 @@ class Generator:
             text = rule_r6_desugar_for(text, spec['desugar_for'], applied)
             text = rule_r3_closures(text, spec['closures'], applied, None)
             text = rule_r5_lettype(text, spec['lettypes'], applied)
-            segs = splice_annotations(text, spec)
+            spec_t = spec
+            if twin:
+                spec_t = dict(spec, ats=spec['ats'] + [{'where': ['body-start'], 'lines': ['assert(false); // vacuity twin']}])
+            segs = splice_annotations(text, spec_t)
         for h in hoisted:
             out.emit(re.sub(r'#\[derive\([^)]*\)\]', '#[derive(PartialEq)]', h) + '\n', {'fn': fnid, 'section': 'hoisted', 'label': 'hoisted', 'props': []})
         cont = spec['container']
@@ -963,8 +966,6 @@ class Generator:
                         out.emit(ct, ctag)
                     emitted_contract = True
                     rest = t[cut:]
-                    if twin:
-                        rest = '{ assert(false); ' + rest[1:]
                     out.emit(rest, body_tag)
                 else:
                     out.emit(t, body_tag if tag is None else dict(body_tag, section=tag[0], label=tag[1]))
